@@ -43,6 +43,7 @@ pub struct FaultStats {
     pub failures: Vec<(String, u64, String, String)>,
     pub samples: Vec<String>,
     pub calls_total: u64,
+    pub skipped_over_budget: u64,
 }
 
 impl FaultStats {
@@ -57,6 +58,7 @@ impl FaultStats {
         self.reads_ok_after_failure += o.reads_ok_after_failure;
         self.reads_err_after_failure += o.reads_err_after_failure;
         self.calls_total += o.calls_total;
+        self.skipped_over_budget += o.skipped_over_budget;
         for (k, v) in o.by_kind {
             *self.by_kind.entry(k).or_default() += v;
         }
@@ -388,6 +390,10 @@ pub fn run(hs: Vec<History>, modes: Vec<FaultMode>) -> FaultStats {
     let results = par::map(&chunks, |_, c| {
         let mut st = FaultStats::default();
         for k in c.from..c.to {
+            if par::over_budget() {
+                st.skipped_over_budget += (c.to - k) * modes.len() as u64;
+                break;
+            }
             for mode in &modes {
                 st.cases += 1;
                 match par::guarded(|| run_case(&c.h, c.base, k, *mode)) {
